@@ -418,7 +418,27 @@ func (w *world) parents() (map[uint32]uint32, bool) {
 	return m, true
 }
 
+// idSets: the search runs once per assignment of agent ids.  The second one puts two
+// agents above 0x7fffffff (one of them a direct agent, i.e. a parent), one exactly on
+// 0x7fffffff: ids are unsigned 32-bit values on the wire and signed 64-bit integers in
+// the database, and every layer in between has its own idea of their width.
+var idSets = []struct {
+	tag string
+	ids []uint32
+}{
+	{"c09", []uint32{0xa1, 0xb2, 0xc3, 0xd4}},
+	{"c09hi", []uint32{0x800000a1, 0xb2, 0xffffffc3, 0x7fffffff}},
+}
+
 func Run(r *ev.Run) {
+	for _, set := range idSets {
+		ids = set.ids
+		names = map[uint32]string{ids[0]: "A", ids[1]: "B", ids[2]: "C", ids[3]: "D", 0x99: "?"}
+		runIDs(r, set.tag)
+	}
+}
+
+func runIDs(r *ev.Run, tag string) {
 	alpha := alphabet()
 	depth := 4
 	dl := 70 * time.Second
@@ -426,7 +446,7 @@ func Run(r *ev.Run) {
 		depth = 12
 		dl = 18 * time.Minute
 	}
-	r.Rule = "explicit-state BFS over pivot events (connect/disconnect/exit/kill-date callbacks relayed through the real parent chain, operator mark dead/alive) on 4 agents; state = history, de-duplicated by canonical (parent map, ordered link lists, active flags, raw TS_Links rows, active TS_Agents rows); every transition replayed on a fresh real teamserver + SQLite file; invariants I1-I6 and per-event expectations evaluated after every event; distinct = distinct canonical states + outcome classes"
+	r.Rule = "explicit-state BFS over pivot events (connect/disconnect/exit/kill-date callbacks relayed through the real parent chain, operator mark dead/alive) on 4 agents, once with small ids and once with ids on both sides of 0x80000000; state = history, de-duplicated by canonical (parent map, ordered link lists, active flags, raw TS_Links rows, active TS_Agents rows); every transition replayed on a fresh real teamserver + SQLite file; invariants I1-I6 and per-event expectations evaluated after every event; distinct = distinct canonical states + outcome classes"
 	r.Bounds["agents"] = 4
 	r.Bounds["max_depth"] = depth
 	r.Bounds["alphabet_size"] = len(alpha)
@@ -483,11 +503,12 @@ func Run(r *ev.Run) {
 		}
 		return k, w.enabled(), true
 	}
-	res := par.BFS(r, "c09", depth, par.Workers(), time.Now().Add(dl), step)
+	res := par.BFS(r, tag, depth, par.Workers(), time.Now().Add(dl), step)
 	r.AddStates(res.States, res.Transitions, res.Transitions)
-	r.Extra["bfs"] = map[string]any{"states": res.States, "transitions": res.Transitions, "depth_completed": res.Depth, "fixpoint": res.Fixpoint, "new_states_by_depth": res.ByDepth}
-	r.Bounds["depth_completed"] = res.Depth
+	r.Bounds["agent_ids/"+tag] = fmt.Sprintf("%08x", ids)
+	r.Extra["bfs/"+tag] = map[string]any{"states": res.States, "transitions": res.Transitions, "depth_completed": res.Depth, "fixpoint": res.Fixpoint, "new_states_by_depth": res.ByDepth}
+	r.Bounds["depth_completed/"+tag] = res.Depth
 	if res.Capped {
-		r.NotExhaustive(fmt.Sprintf("BFS stopped by the internal deadline after depth %d", res.Depth))
+		r.NotExhaustive(fmt.Sprintf("BFS (%s) stopped by the internal deadline after depth %d", tag, res.Depth))
 	}
 }
